@@ -263,16 +263,31 @@ void j_atan_index(Ctx & c, int64_t x, int64_t, int64_t)
     if(model_isnan(r.v) || e > 1.25L + 1e-9L) c.violation("atan_index_aprox/error>1.25", (int)ci, x, 0, 0, i2s(r.v), ld2s(t * 65536));
     }
   }
+Fn SINIT[8], SNOW[8];
+const char * SINIT_NAMES[8] = { "sin_angle_aprox", "cos_angle_aprox", "sqrt_aprox", "hypot_aprox", "atan_index_aprox", "sin_angle_tab", "tan_tab", "square_root_tab" };
+// value returned by a call made during static initialisation of another translation unit == value returned now; a = probe index
+void j_static_init(Ctx & c, int64_t i, int64_t k, int64_t)
+  {
+  if(i < 0 || i > 11 || k < 0 || k > 7) return;
+  c.stratum("call-during-static-initialisation"); c.nontrivial(hash3(194, i, k));
+  for(size_t ci = 0; ci < g_cfgs.size(); ++ci)
+    {
+    CALLG(a, SINIT[k], i, 0) CALLG(b, SNOW[k], i, 0)
+    if(a.v != b.v) c.violation(std::string(SINIT_NAMES[k]) + "/differs-during-static-initialisation", (int)ci, i, k, 0, i2s(a.v), i2s(b.v) + " (same call from main)");
+    }
+  }
 void c19_init()
   {
+  for(int k = 0; k < 8; ++k) { SINIT[k] = resolve((std::string("sinit_") + SINIT_NAMES[k]).c_str()); SNOW[k] = resolve((std::string("snow_") + SINIT_NAMES[k]).c_str()); }
   SIN_TAB = resolve("sin_angle_tab"); COS_TAB = resolve("cos_angle_tab"); TAN_TAB = resolve("tan_tab"); SQRT_TAB = resolve("square_root_tab");
   SIN_AP = resolve("sin_angle_aprox"); COS_AP = resolve("cos_angle_aprox"); SQRT_AP = resolve("sqrt_aprox"); ATAN_IDX = resolve("atan_index_aprox");
   }
 extern Property P_C19;
 void c19_run(Ctx & c)
   {
-  const Check & TAB = P_C19.checks[0], & ANG = P_C19.checks[1], & SQ = P_C19.checks[2], & AI = P_C19.checks[3];
+  const Check & TAB = P_C19.checks[0], & ANG = P_C19.checks[1], & SQ = P_C19.checks[2], & AI = P_C19.checks[3], & SI = P_C19.checks[4];
   uint64_t idx = 0;
+  if(c.shard == 0) for(int64_t k = 0; k < 8; ++k) for(int64_t i = 0; i < 12; ++i) c.run_check(SI, i, k);
   for(int64_t i = 0; i <= 360; ++i) if(c.mine(idx++)) { c.run_check(TAB, 0, i); c.run_check(TAB, 1, i); }
   for(int64_t i = 0; i <= 255; ++i) if(c.mine(idx++)) { c.run_check(TAB, 2, i); c.run_check(TAB, 3, i); }
   // angles
@@ -306,7 +321,8 @@ Property P_C19 = { "C19", c19_init, c19_run,
   { { "table", j_table, "table entry a (0 sin, 1 cos, 2 tan, 3 sqrt) index b against the tabulated function" },
     { "angle_aprox", j_angle_aprox, "sin_angle_aprox(d), cos_angle_aprox(d) within 2 ulp of sin/cos(d degrees); a = int32 d" },
     { "sqrt_aprox", j_sqrt_aprox, "relative error <= 2% on [2^-16, 2^21), 0 at 0, NaN below 0; a = raw" },
-    { "atan_index", j_atan_index, "|atan_index_aprox(x) - atan(x)*128/pi| <= 1.25; a = raw, |x| < 2^47" } },
+    { "atan_index", j_atan_index, "|atan_index_aprox(x) - atan(x)*128/pi| <= 1.25; a = raw, |x| < 2^47" },
+    { "static_init", j_static_init, "the compiled table functions called from a static initialiser of another translation unit (linked before fixed_math.cc) return what they return from main; a = probe 0..11, b = function 0..7" } },
   { "table-entry", "angle-negative", "angle>360", "angle-in-[0,360]", "sqrt_aprox-negative", "sqrt_aprox-zero", "sqrt_aprox-positive", "atan_index-negative", "atan_index-non-negative" },
   "every table entry; angles outside [0,359]; sqrt_aprox arguments <= 0, below 64 raw or >= 2^36 raw; atan_index arguments below 1024 raw or above 2^22 raw; distinct by argument",
   { "all 361+361+255+256 table entries", "every angle in [-10^6,10^6]", "every raw x in [0,2^21) for sqrt_aprox", "every raw |x| <= 2^20 for atan_index_aprox" },
